@@ -28,13 +28,43 @@ def run_one(nid, checks):
             if r.returncode not in (0, 1):
                 wit = wit or (r.stdout + r.stderr)[-400:]
             out[c] = {'exit': r.returncode, 'witness': wit[:400]}
+            if r.returncode != 0 and base != 'HEAD':
+                # the change is pinned to an older commit: does that commit WITHOUT the change give the same verdict?
+                d0 = tempfile.mkdtemp(prefix='pane-neu-', dir='/tmp')
+                try:
+                    subprocess.run(f"git -C /repo archive {base} | tar -x -C {d0}", shell=True, check=True)
+                    r0 = subprocess.run([f"{V}/check", c], cwd=V, env=dict(os.environ, PANE_SRC=d0, VERIF_EVIDENCE_DIR=f"{d0}/evidence"),
+                                        capture_output=True, text=True)
+                    out[c]['unpatched_base_exit'] = r0.returncode
+                finally:
+                    shutil.rmtree(d0, ignore_errors=True)
     finally:
         shutil.rmtree(d, ignore_errors=True)
     return nid, out
 
 
+RELEVANT = {
+    'pane/errors.py': 'C01 C03 C04 C07 C08 C12 C13', 'pane/converters.py': 'C01 C02 C03 C04 C05 C06 C07 C08 C09 C10 C11 C12 C13 C19',
+    'pane/classes.py': 'C01 C03 C04 C05 C06 C07 C08 C09 C14 C15 C16 C17 C18', 'pane/convert.py': 'C01 C02 C04 C10 C11 C13 C18',
+    'pane/field.py': 'C05 C14 C15 C17 C20', 'pane/io.py': 'C04 C10 C12 C18 C19', 'pane/util.py': 'C10 C11 C13 C17',
+    'pane/annotations.py': 'C01 C02 C12 C13', 'pane/types.py': 'C03 C05 C06', 'pane/addons/numpy.py': 'C01 C02 C04 C13',
+}
+
+
+def relevant_checks(nid, claimed):
+    """The checks that exercise the files a change touches (a superset, by file), plus the one of the change's own property."""
+    import re
+    files = set(re.findall(r'^\+\+\+ b/(\S+)', open(f"{V}/neutral/{nid}/patch.diff").read(), re.M))
+    want = {nid.split('_')[0]}
+    for f in files:
+        want |= set(RELEVANT.get(f, ' '.join(claimed)).split())
+    return [c for c in claimed if c in want]
+
+
 def main():
     args = sys.argv[1:]
+    rel = '--relevant' in args
+    args = [a for a in args if a != '--relevant']
     jobs = 3
     checks = None
     if '--jobs' in args:
@@ -47,14 +77,14 @@ def main():
     todo = [c for c in (checks or claimed) if c in claimed]
     bad = 0
     with cf.ThreadPoolExecutor(jobs) as ex:
-        for nid, out in ex.map(lambda n: run_one(n, todo), ids):
+        for nid, out in ex.map(lambda n: run_one(n, relevant_checks(n, todo) if rel else todo), ids):
             mp = f"{V}/neutral/{nid}/meta.json"
             meta = json.load(open(mp))
             meta.setdefault('checks', {}).update(out)
             json.dump(meta, open(mp, 'w'), indent=1)
-            noisy = {c: o for c, o in out.items() if not c.startswith('_') and o['exit'] != 0}
+            noisy = {c: o for c, o in out.items() if not c.startswith('_') and o['exit'] != 0 and o.get('unpatched_base_exit') != o['exit']}
             bad += bool(noisy)
-            print(f"{nid:8s} suite={out.get('_suite', out.get('_patch'))!s:32s} silent={len(out) - len(noisy) - 1}/{len(todo)}"
+            print(f"{nid:8s} suite={out.get('_suite', out.get('_patch'))!s:32s} silent={len(out) - len(noisy) - 1}/{len(out) - 1}"
                   + ''.join(f"\n    {c}: exit={o['exit']} {o['witness'][:200]}" for c, o in noisy.items()), flush=True)
     print(f"done: {bad} change(s) with a non-silent check")
 
